@@ -89,4 +89,50 @@ theorem icFold_cases (k : Kind) (total : Nat) (ts : List Term) :
       · right; rw [hr]
     · right; rw [hc]; rfl
 
+/-- what the three passes of `calculate_information_content` store -/
+theorem calcIc_ok (o o' : Onto) (h : o.calcIc = .ok o') :
+    o'.terms = o.terms.map (fun t =>
+      ((t.setIc .gene (icPair o.genes.length t.genes.length)).setIc .omim
+        (icPair o.omim.length t.omim.length)).setIc .orpha (icPair o.orpha.length t.orpha.length)) ∧
+    o'.genes = o.genes ∧ o'.omim = o.omim ∧ o'.orpha = o.orpha := by
+  unfold Onto.calcIc Onto.calcIcKind at h
+  cases h1 : Onto.icFold .gene (o.recs .gene).length o.terms with
+  | ok t1 =>
+    rw [h1] at h; simp only [Res.bind] at h
+    cases h2 : Onto.icFold .omim (({ o with terms := t1 } : Onto).recs .omim).length t1 with
+    | ok t2 =>
+      rw [h2] at h; simp only [Res.bind] at h
+      cases h3 : Onto.icFold .orpha (({ o with terms := t2 } : Onto).recs .orpha).length t2 with
+      | ok t3 =>
+        rw [h3] at h; simp only [Res.bind, Res.ok.injEq] at h
+        subst h
+        have e1 := icFold_ok _ _ _ _ h1
+        have e2 := icFold_ok _ _ _ _ h2
+        have e3 := icFold_ok _ _ _ _ h3
+        refine ⟨?_, rfl, rfl, rfl⟩
+        simp only [e3, e2, e1, List.map_map]
+        apply List.map_congr_left
+        intro t _
+        simp [Onto.recs, Term.ann, Term.setIc]
+      | err e => rw [h3] at h; cases h
+      | panic => rw [h3] at h; cases h
+      | diverge => rw [h3] at h; cases h
+    | err e => rw [h2] at h; cases h
+    | panic => rw [h2] at h; cases h
+    | diverge => rw [h2] at h; cases h
+  | err e => rw [h1] at h; cases h
+  | panic => rw [h1] at h; cases h
+  | diverge => rw [h1] at h; cases h
+
+
+theorem getT_map (ts : List Term) (f : Term → Term) (hf : ∀ t, (f t).id = t.id) (j : Nat) :
+    getT (ts.map f) j = (getT ts j).map f := by
+  induction ts with
+  | nil => rfl
+  | cons t ts ih =>
+    simp only [List.map_cons, getT, hf]
+    split
+    · rfl
+    · exact ih
+
 end Hpo
